@@ -18,6 +18,9 @@ pub fn run(args: &[String]) -> i32 {
     // field-level C02: serialise, re-parse, compare value and text
     let mut c02: BTreeMap<String, (u64, Value)> = BTreeMap::new();
     let mut c02_evaluated = 0u64;
+    let mut c03: BTreeMap<String, (u64, Value)> = BTreeMap::new();
+    let mut c03_evaluated = 0u64;
+    let mut c03_components = 0u64;
     let mut panics: BTreeMap<String, u64> = BTreeMap::new();
     let mut per_tag: BTreeMap<String, u64> = BTreeMap::new();
     let mut samples: Vec<Value> = Vec::new();
@@ -70,6 +73,32 @@ pub fn run(args: &[String]) -> i32 {
                         }
                         Ok(Some(Err(e))) => c02hit(format!("C02|Field{}|reparse-rejected|{}", tag, lab), json!({"ser": o.ser, "err": e})),
                         _ => {}
+                    }
+                }
+                // ---- C03 at field level: the parsed value exposes each top-level component as it was written
+                // (only contents whose deviations change a component's length, value or presence: a missing line break
+                // or literal that happens to stay inside the language re-segments the content, and the generated parts
+                // are then not the components any more)
+                let structural = label.split(" & ").all(|d| {
+                    let atom = d.rsplit('.').next().unwrap_or("");
+                    d.is_empty() || ["min", "max", "absent", "1line", "maxlines", "code-other"].contains(&atom) || d.ends_with("lastline.max")
+                        || atom.ends_with("-max") || (atom.starts_with("alt") && atom[3..].chars().all(|c| c.is_ascii_digit()) && atom.len() > 3)
+                        || atom.starts_with("mid=")
+                });
+                if want && structural && !content.contains('<') {
+                    let parts: Vec<String> = c["p"].as_array().map(|a| a.iter().map(|x| x.as_array().map(|cs| cs.iter().filter_map(|y| y.as_str()).collect::<Vec<_>>().concat()).unwrap_or_default()).collect()).unwrap_or_default();
+                    if !parts.is_empty() {
+                        c03_evaluated += 1;
+                        for (k, key, kind) in crate::comps::bindings(tag) {
+                            let part = match parts.get(k - 1) { Some(p) => p, None => continue };
+                            c03_components += 1;
+                            if let Some(why) = crate::comps::differs(*kind, part, o.json.get(*key)) {
+                                let mut r = replay.clone();
+                                r["detail"] = json!({"component": k, "member": key, "why": why, "json": o.json});
+                                let e = c03.entry(format!("C03|Field{}|component-not-exposed|{}", tag, key)).or_insert((0, r));
+                                e.0 += 1;
+                            }
+                        }
                     }
                 }
                 if !want {
@@ -154,8 +183,9 @@ pub fn run(args: &[String]) -> i32 {
         !(parts[3].contains(" & ") && parts[3].split(" & ").any(|l| keys2.contains(&format!("{}|{}|{}|{}", parts[0], parts[1], parts[2], l))))
     });
     let violations: Vec<Value> = violations.iter().map(|(sig, (n, r))| json!({"sig": sig, "count": n, "replay": r})).collect();
+    let c03v: Vec<Value> = c03.iter().map(|(sig, (n, r))| json!({"sig": sig, "count": n, "replay": r})).collect();
     let c02v: Vec<Value> = c02.iter().map(|(sig, (n, r))| json!({"sig": sig, "count": n, "replay": r})).collect();
     std::fs::write(out_path, json!({"evaluated": evaluated, "in_language": in_lang, "distinct_nontrivial": nontrivial,
-        "fields": per_tag.len(), "subsumed_multi_deviation": subsumed, "violations": violations, "c02_evaluated": c02_evaluated, "c02_violations": c02v, "panics_noted_for_C07": panics, "samples": samples}).to_string()).expect("write");
+        "fields": per_tag.len(), "subsumed_multi_deviation": subsumed, "violations": violations, "c02_evaluated": c02_evaluated, "c02_violations": c02v, "c03_evaluated": c03_evaluated, "c03_components": c03_components, "c03_violations": c03v, "panics_noted_for_C07": panics, "samples": samples}).to_string()).expect("write");
     0
 }
